@@ -43,6 +43,7 @@ def run(tier, seed):
     nseeds = 3 if tier == "quick" else 15
     traces, events, samples, viol = 0, 0, [], 0
     ep_states, ep_traces, ep_events, ep_admitted, ep_max_known, ep_samples = 0, 0, 0, 0, 0, []
+    gf_cov = {}
     try:
         for (steps, maxn, profile) in plan:
             for k in range(nseeds):
@@ -97,12 +98,19 @@ def run(tier, seed):
                     raise common.Violation(PROP, what, path)
         if ep_max_known < 3:
             raise common.ToolError("epoch_drv never reached three known epochs: pruning of the schedule was not exercised")
+        # ---- peer-supplied blocks at node level (gossip/runner.rs: requested number, queue verification)
+        import gossipfetch
+        gf_cov, gf_fails = gossipfetch.run(PROP, tier, seed, {"store_not_genuine", "fetch_request_lost"})
+        if gf_fails:
+            viol = 1
+            common.handle_failures(PROP, gf_fails, "gossip_fetch_failure")
     finally:
         cov = {"states": m.distinct, "transitions": m.generated, "traces_validated_against_impl": traces, "samples": samples or [{}],
                "evaluations": events, "distinct_nontrivial": traces,
                "rule": "model: BFS of BlockStore.tla (3-4 block numbers, 2 valid + 1 invalid candidate block per number); code: one trace per (steps, "
                        "max number, seed); runs with max number 260+ cross the real CACHE_CAPACITY = 100; each quiescent observation is one TLC state",
                "exhaustive": True,
+               "peer_supplied_blocks": gf_cov,
                "admission_and_epochs": {"model_states": ep_states, "traces": ep_traces, "events": ep_events, "blocks_admitted": ep_admitted, "max_epochs_known": ep_max_known,
                                         "samples": ep_samples,
                                         "rule": "Epochs.tla: BFS with honest+informed committees (RightCommittee, NumberingOK, NextKnown, PrunedOnlyFinished), with Byzantine "
@@ -113,7 +121,7 @@ def run(tier, seed):
         common.write_evidence(PROP, tier, seed, "model_checking", cov,
                               ["pre-genesis blocks with an external justification (verification = harness rule) keep the runs cheap; the certificate path of "
                                "queue_block is exercised by C01's block sync", "the side channel delivers the block this node already accepted for a number, if any",
-                               "the peer-side guard in gossip/runner.rs (requested number) is above EngineManager and not covered here"],
+                               "the peer-side guard in gossip/runner.rs (requested number) is exercised by the node-level part (GossipFetch.tla)"],
                               time.time() - t0, viol)
     log(f"[C08] ok: model {m.distinct} states; {traces} traces / {events} observations validated; epochs: {ep_states} model states, {ep_traces} traces / {ep_events} events, {ep_admitted} blocks admitted")
     return 0
@@ -126,6 +134,9 @@ def replay(path, seed):
     d = common.outdir(PROP)
     trace = os.path.join(d, "replay.ndjson")
     rep = os.path.join(d, "replay.json")
+    if isinstance(c.get("case"), dict) and c["case"].get("mode") == "gossip_fetch":
+        import gossipfetch
+        return gossipfetch.replay(PROP, c["case"], seed, {"store_not_genuine", "fetch_request_lost"})
     if c.get("kind") == "epochs":
         common.run_bin("epoch_drv", [trace, rep, c["seed"], c["steps"], c["G"], c["L"]])
         what, n = _validate_epochs(trace)
